@@ -21,6 +21,13 @@ the integrand names it requests are compared with the extracted scripts, per gat
 gate-set proxy gives the sequence of gate-set calls of every shot).
 """
 import contextlib, copy, json, math, os, struct, subprocess, sys, time, warnings
+# Thread settings.  The matrices here are at most 8x8, BLAS never splits them; idle BLAS worker threads only burn CPU.  The quick
+# tier therefore pins the BLAS / OpenMP pools to one thread unless the environment says otherwise; the thorough tier keeps the
+# ambient (default, multi-threaded) settings, so that bitwise repetition is also observed under the default configuration.
+_THOROUGH = "thorough" in sys.argv or os.environ.get("VERIF_TIER") == "thorough"
+if not _THOROUGH:
+    for _v in ("OMP_NUM_THREADS", "OPENBLAS_NUM_THREADS", "MKL_NUM_THREADS"):
+        os.environ.setdefault(_v, "1")
 import numpy as np
 from qgv import core, pyexpr
 from qgv import gatecheck as gc
@@ -1015,6 +1022,29 @@ def main(ctx):
     ctx.sample({"part": "A", "case": {k: casesA[4][k] for k in ("family", "pulses")}, "events": casesA[4]["events"][:6],
                 "observed": realsA[4]["obs"][:6]})
 
+    # ---------------------------------------------------------------- the one value-relevant collision class: theta = 0.0 / -0.0
+    # (assumption `hcompute` of cache_transparent / cache_scoped_per_pulse_rel, measured on the real code: the two zeros must give
+    # numerically equal integrals on both branches; whether they are also bit-identical is recorded per branch and integrand)
+    zero_table = {}
+    for pd in ([["constant"]], [["constant-numerical"]], [["gaussian", 0.5, 0.3]]):
+        for key in known:
+            for a in (fl(1, "int"), fl(3.7)):
+                vp = cold.of_descs(pd[0], key, fl(0.0), a)
+                vn = cold.of_descs(pd[0], key, fl(-0.0), a)
+                ctx.count(2)
+                same = "bit-identical" if vp == vn else ("equal, sign of zero differs" if vp[0] == vn[0] == "ok" and "nan" not in (vp[1], vn[1])
+                                                         and from_bits(vp[1]) == from_bits(vn[1]) else "DIFFERENT VALUES")
+                zero_table.setdefault(pd[0][0], {}).setdefault(same, [])
+                if key not in zero_table[pd[0][0]][same]:
+                    zero_table[pd[0][0]][same].append(key)
+                if same == "DIFFERENT VALUES":
+                    violations.append(({"kind": "history", "class": "signed-zero-values"},
+                                       {"level": "integrator", "pulses": pd, "events": [["new", 0], ["req", 0, key, fl(0.0), a], ["req", 0, key, fl(-0.0), a]],
+                                        "failing_event": 2, "expected_cold": list(vn), "observed_warm": list(vp)},
+                                       f"Integrator({pd[0]}).integrate({key!r}, -0.0, {_shown(a)}) = {_res(vn)} but theta = 0.0, which shares its cache "
+                                       f"entry, gives {_res(vp)}"))
+    cov["signed_zero_theta_table"] = zero_table
+
     # ---------------------------------------------------------------- B: gate histories on several gate sets
     set_descs = [["standard_gates"], ["numerical_gates"], ["Gates", ["gaussian", 0.5, 0.3]], ["Gates", ["gaussian", 0.5, 0.3]],
                  ["ScaledNoiseGates", 0.37, ["constant"]], ["Gates", ["constant"]],
@@ -1192,8 +1222,10 @@ def main(ctx):
         "integrands / gate-set calls on every run; the AST scans are syntactic (reflection such as getattr/exec is outside them; the bitwise "
         "oracle is what would expose it)",
         "numpy's global generator is a deterministic function of its state; scipy.integrate.quad, scipy.linalg.expm, numpy/BLAS are "
-        "deterministic functions of their inputs (bitwise determinism under threads is outside the theorems; the harness runs with "
-        "OMP_NUM_THREADS / OPENBLAS_NUM_THREADS as the environment sets them and compares bitwise - a mismatch is reported as a violation)",
+        "deterministic functions of their inputs (bitwise determinism under threads is outside the theorems; quick tier: BLAS / OpenMP "
+        "pools pinned to one thread unless the environment sets them, thorough tier: ambient default thread settings; everything is "
+        f"compared bitwise - a mismatch is reported as a violation; this run: OMP_NUM_THREADS={os.environ.get('OMP_NUM_THREADS')}, "
+        f"OPENBLAS_NUM_THREADS={os.environ.get('OPENBLAS_NUM_THREADS')})",
         "`compute` (the two integration routines) is an arbitrary function of the request it is handed and of the integrator's pulse: that it "
         "reads nothing else is the extraction (self-attribute reads, global names, writers of those attributes)",
         "copy.deepcopy yields objects that share no mutable state with the original (functions / modules are shared, they are immutable here)"]
